@@ -19,7 +19,8 @@ RULE = ('Hypothesis-generated world descriptions: 0-4 processors and 0-5 entitie
         'an importable fixture module (handler and plain components recording *args/**kwargs), optional ids (str, '
         'negative int, int >= 10**6), args/kwargs from a pool of JSON values (nested containers, numbers, '
         'booleans, null, near-miss strings such as "$", "$x{a}", " ${a}", "a$res{b}", "${}") plus top-level '
-        'references ${mod.attr}, $res{p.q}, $handle{p.q} to fixture names and to paths of a generated resource '
+        'references ${mod.attr} (also to falsy objects: 0, None, False, empty list, empty string), $res{p.q}, '
+        '$handle{p.q} to fixture names and to paths of a generated resource '
         'tree. Two drivers: populate_world_from_dict on a dict with real types, and WorldFromFileHandle on a JSON '
         'file in a per-case temp dir with the handle stored under a key of depth 1-3. Oracle: reference '
         'interpretation of the description (processor types in order after the defaults, entities by id or '
@@ -39,7 +40,9 @@ VALUES = [None, True, False, 0, -1.5, 7, 'plain', '', '$', '$x{a}', ' ${verif_fi
           '${}', '$res{}', '$handle', [1, 'a', None], {'k': [1, {'z': None}], 'n': 2}, [], {}, 'verif_fixtures.CONST_A',
           '$ {verif_fixtures.CONST_A}']
 OBJ_REFS = ['verif_fixtures.CONST_A', 'verif_fixtures.CONST_LIST', 'verif_fixtures.Holder.attr',
-            'verif_fixtures.Holder.Inner.deep', 'verif_fixtures.helper_function', 'verif_fixtures.PlainA', 'math.pi']
+            'verif_fixtures.Holder.Inner.deep', 'verif_fixtures.helper_function', 'verif_fixtures.PlainA', 'math.pi',
+            'verif_fixtures.ZERO', 'verif_fixtures.NOTHING', 'verif_fixtures.EMPTY', 'verif_fixtures.FALSE',
+            'verif_fixtures.EMPTY_TEXT']
 RES_PATHS = ['r1', 'dir.r2', 'dir.sub.r3', 'dir.r4']
 IDS = [None, None, 'hero', 'id with space', -1, -77, 10 ** 6, 10 ** 6 + 5]
 WORLD_KEYS = ['w', 'worlds/w', 'worlds/lvl/w']
@@ -311,7 +314,7 @@ def _run(case, tmp):
             for x in e['components']:
                 c = x.get('obj')
                 for v in list(getattr(c, 'args', ())) + list(getattr(c, 'kwargs', {}).values()):
-                    if isinstance(v, list) and v is not fx.CONST_LIST:
+                    if isinstance(v, list) and v is not fx.CONST_LIST and v is not fx.EMPTY:
                         v.append('mutated by the first world')
                     elif isinstance(v, dict) and v is not fx.Holder.attr:
                         v['mutated'] = True
